@@ -25,7 +25,7 @@ from .common import load_program
 from .rseval import Struct, Enum, NONE, Some, Ok, Err, Uninterp
 
 FILES = ["src/naming/instance_meta_repository.rs", "src/common/pb/service_meta.rs", "src/common/protobuf_utils.rs", "src/naming/model.rs"]
-LENS = [3, 300, 700, 1100]
+LENS = [3, 300, 700, 1100, 2100]
 
 
 class Desync(Exception):
@@ -60,7 +60,7 @@ def install_file_fns(it, fs):
 
 def run(tier, seed):
     t0 = time.time()
-    nrec = 3
+    nrec = 3 if tier == "quick" else 4
     lens = LENS if tier != "quick" else [3, 300, 700]
     ob = {"engine": "smt", "harness": "s20_7_metadata_files", "encodes_files": FILES, "queries": 0, "solver_s": 0.0, "distinct": 0,
           "encodes": ["InstanceMetaRepository::{write_records_to_file,read_records_from_file,save_file_map,load_file_map}", "InstanceMetaDto::to_proto", "From<InstanceMetaDo> for InstanceMetaDoOwned",
